@@ -1,7 +1,7 @@
 (* C01 property theorems. This file contains only statements closed by
    [exact lemma] and Print Assumptions. *)
 From V Require Import Common.Base C01.Utf C01.Quote C01.SpecLiteral C01.QuoteProofs.
-From V Require Import C01.Num C01.SpecNumeric C01.NumProofs.
+From V Require Import C01.Num C01.SpecNumeric C01.NumProofs C01.ScriptProofs.
 
 (* printQuotedUTF16: for EVERY sequence of UTF-16 code units (lone surrogates
    included), every configuration (charset, unicode-escape support,
@@ -38,6 +38,36 @@ Theorem quote_no_raw_line_terminator : forall cfg k nowrap prefix u,
               Forall (no_lt nolf) cps.
 Proof. exact quote_no_raw_lt_all. Qed.
 Print Assumptions quote_no_raw_line_terminator.
+
+(* with the inline-script guard on (platform browser), the printed literal
+   never contains "</script" in any ASCII letter case: every UTF-16 sequence,
+   every other setting (wrapping, charset, quote choice) *)
+Theorem quote_no_script_close : forall cfg allow_backtick nowrap prefix u,
+  script_guard cfg = true -> all_u16 u ->
+  exists cps, utf8_decode (print_quoted cfg allow_backtick nowrap prefix u) = Some cps /\
+              contains_ci script_close cps = false.
+Proof. exact quote_no_script_close_bytes. Qed.
+Print Assumptions quote_no_script_close.
+
+(* printIdentifierUTF16: when it returns (it panics for a non-BMP name under
+   ASCII without \u{...} support), the text printed denotes, as an ECMA-262
+   IdentifierName (escapes \uHHHH and \u{H+} resolved), exactly the name:
+   every well-formed UTF-16 name without a backslash, every configuration *)
+Theorem ident_roundtrip : forall cfg name out,
+  all_u16 name -> wf_utf16 name = true -> ~ In 92 name ->
+  print_identifier_utf16 cfg name = Some out -> ident_value out = Some name.
+Proof. exact ident_roundtrip_all. Qed.
+Print Assumptions ident_roundtrip.
+
+(* helpers.StringToUTF16 (helpers.UTF16ToString u) = u is FALSE for lone
+   surrogates (witness [0xD800] -> ED A0 80 -> FFFD FFFD FFFD); this is the path
+   printQuotedUTF8 takes (import paths, directives, clause aliases), not the
+   path of string literals (which stay UTF-16). Replayed on the real
+   helpers by the `utf` correspondence family. *)
+Theorem string_to_utf16_roundtrip_refuted :
+  exists u, all_u16 u /\ StringToUTF16 (UTF16ToString u) <> u.
+Proof. exact string_to_utf16_not_inverse. Qed.
+Print Assumptions string_to_utf16_roundtrip_refuted.
 
 (* ---- numbers ---- *)
 
